@@ -154,7 +154,7 @@ Lemma http_reach fuel O C st sid e st' :
   http_event fuel O C st sid e = Some st' -> reach fuel O C st st'.
 Proof.
   unfold http_event.
-  destruct e as [|url ip|d|hlen|d| |reser revisit|];
+  destruct e as [|url ip|d|hlen|d| |reser revisit| |];
     destruct (sfind sid (st_sess st)) as [[h|f]|] eqn:F; try discriminate.
   - intros H. injection H as <-. apply reach_one, P_sess.
   - destruct (Nat.eqb (h_stage h) 0); [|discriminate].
@@ -178,6 +178,8 @@ Proof.
       step_write slm_local_response.
       apply reach_one, P_sess.
   - intros H. step_sess. apply flush_reach, H.
+  - destruct (Nat.eqb (h_stage h) 1 || Nat.eqb (h_stage h) 3); [|discriminate].
+    intros H. injection H as <-. apply reach_one, P_sess.
 Qed.
 
 Lemma ftp_reach fuel O C st sid e st' :
